@@ -93,13 +93,6 @@ def parseAttr : Sexp → Option Attr
   | .list [.atom "obj", .atom q] => (hexDec q).map .obj
   | _ => none
 
-def parseBinder : Sexp → Option Binder
-  | .list (.atom "bind" :: s :: vals) => do
-      let s ← parseSym s
-      let vs ← vals.mapM parseQ
-      pure (s, vs)
-  | _ => none
-
 mutual
 partial def parseExpr : Sexp → Option Expr
   | .list (.atom "sym" :: rest) => (parseSym (.list (.atom "sym" :: rest))).map .sym
@@ -121,7 +114,7 @@ partial def parseExpr : Sexp → Option Expr
       pure (.node c es ats)
   | .list (.atom "psum" :: b :: bs) => do
       let b ← parseExpr b
-      let bs ← bs.mapM parseBinder
+      let bs ← parseBinders bs
       pure (.psum b bs)
   | _ => none
 partial def parseExprs : List Sexp → Option (List Expr)
@@ -129,6 +122,15 @@ partial def parseExprs : List Sexp → Option (List Expr)
   | e :: es => do
       let e ← parseExpr e; let es ← parseExprs es
       pure (e :: es)
+/-- `(bind <sym> <value> …)`: the pool values are terms. -/
+partial def parseBinders : List Sexp → Option (List Binder)
+  | [] => some []
+  | .list (.atom "bind" :: s :: vals) :: rest => do
+      let s ← parseSym s
+      let vs ← parseExprs vals
+      let rest ← parseBinders rest
+      pure ((s, vs) :: rest)
+  | _ => none
 end
 
 def showQ (q : Q) : String := s!"(rat {q.num} {q.den})"
@@ -142,9 +144,6 @@ def showAttr : Attr → String
   | .str q => "(str " ++ hexEnc q ++ ")"
   | .obj q => "(obj " ++ hexEnc q ++ ")"
 
-def showBinder (b : Binder) : String :=
-  "(bind " ++ showSym b.1 ++ String.join (b.2.map (fun q => " " ++ showQ q)) ++ ")"
-
 mutual
 partial def showExpr : Expr → String
   | .sym s => showSym s
@@ -156,7 +155,8 @@ partial def showExpr : Expr → String
   | .idx f es => "(idx " ++ hexEnc f ++ showExprs es ++ ")"
   | .node c es ats =>
       "(node " ++ hexEnc c ++ " (" ++ showExprs es ++ " ) (" ++ " ".intercalate (ats.map showAttr) ++ "))"
-  | .psum b bs => "(psum " ++ showExpr b ++ String.join (bs.map (fun x => " " ++ showBinder x)) ++ ")"
+  | .psum b bs =>
+      "(psum " ++ showExpr b ++ String.join (bs.map (fun x => " (bind " ++ showSym x.1 ++ showExprs x.2 ++ ")")) ++ ")"
 partial def showExprs : List Expr → String
   | [] => ""
   | e :: es => " " ++ showExpr e ++ showExprs es
@@ -184,6 +184,13 @@ def parsePairs (l : List Sexp) : Option (List (Sym × Expr)) :=
         pure (s, e)
     | _ => none)
 
+def parsePairsT (l : List Sexp) : Option (List (Expr × Expr)) :=
+  l.mapM (fun p => match p with
+    | .list [k, e] => do
+        let k ← parseExpr k; let e ← parseExpr e
+        pure (k, e)
+    | _ => none)
+
 def parseEnv (l : List Sexp) : Option (List (Sym × Q)) :=
   l.mapM (fun p => match p with
     | .list [s, q] => do
@@ -206,6 +213,18 @@ def m1Command (v : Variant) : Sexp → Option String
       match parseExpr e, parsePairs pairs with
       | some e, some ps => showExpr (xreplace v e ps)
       | _, _ => "err parse"
+  | .list (.atom "substt" :: e :: pairs) => some <|
+      match parseExpr e, parsePairsT pairs with
+      | some e, some ps => showExpr (substTSeq v ps e)
+      | _, _ => "err parse"
+  | .list (.atom "xreplacet" :: e :: pairs) => some <|
+      match parseExpr e, parsePairsT pairs with
+      | some e, some ps => showExpr (xreplaceT v e ps)
+      | _, _ => "err parse"
+  | .list [.atom "wfsums", e] => some <|
+      match parseExpr e with
+      | some e => if wfSums e then "true" else "false"
+      | none => "err parse"
   | .list [.atom "evaluate", e] => some <|
       match parseExpr e with
       | some e => showExpr (evaluate v e)
